@@ -139,7 +139,10 @@ def render(tokens, rng, comments=0.08, dense=False, newline="\n"):
     for t in tokens + [""]:
         gap = ""
         if rng.random() < comments:
-            gap += rng.choice(["", " ", newline]) + "//" + rng.choice(COMMENT_TEXTS) + newline
+            lead = rng.choice(["", " ", newline])
+            if not lead and prev.endswith("/"):
+                lead = " "      # `/` directly followed by `//` would start the comment one character early
+            gap += lead + "//" + rng.choice(COMMENT_TEXTS) + newline
             if rng.random() < 0.2:
                 gap += "//" + rng.choice(COMMENT_TEXTS) + newline
         r = rng.random()
@@ -380,7 +383,7 @@ def well_typed_program(rng, ndecls=None, with_main=True):
         params, locals_ = [], {}
         if name != "main":
             for _ in range(rng.choice([0, 1, 1, 2, 3, 4])):
-                pn = _fresh(rng, set(locals_))
+                pn = _fresh(rng, set(locals_) | set(env.types))
                 te, rt = _texpr(rng, env, creator=pn)
                 is_ref = rt != "int" or rng.random() < 0.3
                 if te[0] == "array":
@@ -396,7 +399,7 @@ def well_typed_program(rng, ndecls=None, with_main=True):
                 locals_[pn] = (rt, is_ref)
         vars_ = []
         for _ in range(rng.choice([0, 1, 2, 2, 3, 5])):
-            vn = _fresh(rng, set(locals_))
+            vn = _fresh(rng, set(locals_) | set(env.types))
             te, rt = _texpr(rng, env, creator=vn)
             vars_.append((vn, te))
             locals_[vn] = (rt, None)
